@@ -12,7 +12,7 @@ from .unit import AnchorLost, Unit
 from .verus import LABEL_RE, CANARY_RE, classify, run_verus
 
 VERIF = os.path.dirname(os.path.dirname(os.path.abspath(__file__)))
-BUILD = os.path.join(VERIF, "build")
+BUILD = os.environ.get("VERIF_BUILD") or os.path.join(VERIF, "build")
 
 TRUST_PATTERNS = [
     ("external_body", re.compile(r"#\[verifier::external_body\]\s*(?:#\[[^\]]*\]\s*)*(?:pub\s+)?(?:(?:open|closed|uninterp)\s+)?(?:spec\s+|proof\s+|exec\s+)?(fn|struct|const)\s+([A-Za-z0-9_]+)")),
